@@ -244,6 +244,12 @@ func (s *session) tryToResume(sprint *sprint, waitingRun flows.Run, resume flows
 		}
 
 		s.status = flows.SessionStatusFailed
+
+		// the session is handed back to the caller, so its contact's groups still have to be correct
+		s.ensureQueryBasedGroups(func(e flows.Event) {
+			waitingRun.LogEvent(nil, e)
+			sprint.logEvent(e)
+		})
 	}
 
 	// if flow for this run is a missing asset, we have a problem
